@@ -60,7 +60,8 @@ class _Gen(object):
         r = self.r
         n = n if n is not None else r.choice((0, 1, 1, 2, 3))
         if n == 0:
-            return r.choice(('0', '1', "'s'", 'None', '[]'))
+            # (equal values of different types on purpose: 1 == 1.0 == True, 0 == 0.0 == False, '' vs b'')
+            return r.choice(('0', '1', "'s'", 'None', '[]', '1', '1.0', 'True', '0.0', 'False', "b's'", '1j', '()'))
         parts = [self.var() for _ in range(n)]
         x = r.random()
         if x < 0.5:
